@@ -1,4 +1,5 @@
 import Driver.Pure
+import Driver.Session
 /-! Model driver: reads an operation script on stdin, prints the model's
 observations, one per line (same protocol as /verif/harness). -/
 open Driver
@@ -19,10 +20,31 @@ partial def loopPure (step : List String → String) (h : IO.FS.Stream) (out : I
     else out.putStrLn (step f)
     loopPure step h out
 
+partial def loopState {σ : Type} (init : σ) (step : σ → List String → σ × List String)
+    (h : IO.FS.Stream) (out : IO.FS.Stream) (st : σ) : IO Unit := do
+  let line ← h.getLine
+  if line.isEmpty then return ()
+  let l := line.trimAscii.toString
+  if l.isEmpty || l.startsWith "#" then
+    loopState init step h out st
+  else
+    let f := fieldsOf l
+    if f.head? == some "reset" then
+      out.putStrLn "reset"
+      loopState init step h out init
+    else if f.head? == some "end" then
+      out.putStrLn (" ".intercalate f)
+      loopState init step h out st
+    else
+      let (st', lines) := step st f
+      for ln in lines do out.putStrLn ln
+      loopState init step h out st'
+
 def main (args : List String) : IO UInt32 := do
   let stdin ← IO.getStdin
   let stdout ← IO.getStdout
   match args with
   | ["pure"] => loopPure pureStep stdin stdout; return 0
   | ["oracle"] => loopPure oracleStep stdin stdout; return 0
+  | ["session"] => loopState ({} : Model.S) sessStep stdin stdout {}; return 0
   | _ => IO.eprintln "usage: driver <port> < script"; return 2
